@@ -307,7 +307,7 @@ def r12_5(ctx, rc):
         for call in prog.calls_in(F):
             for g in prog.resolve_call(call, F):
                 if not isinstance(g, Func):
-                    k, _ = ctx.E.eff.classify(g, call)
+                    k, _ = ctx.E.eff.classify(g, call, F)
                     if k in (DESTROY, UNKNOWN):
                         direct.append((g, call))
         key = '%s removes only through the guarded helpers' % F.qualname
